@@ -5,5 +5,6 @@ DocMode = FALSE
 Vocab <- VocabQuick
 TextKinds <- TK3
 OptSets <- Opts4
+Bugs <- NoBugs
 INVARIANTS BuilderSound DesignRefines Emit
 CHECK_DEADLOCK FALSE
